@@ -325,3 +325,280 @@ Proof.
   - constructor.
   - intros x y [].
 Qed.
+
+(* ------------------------------------------------------------------ the real scripts are well formed *)
+Lemma contiguous_app : forall l1 l2 seen,
+  contiguous seen (l1 ++ l2) -> contiguous seen l1 /\ contiguous (seen_all seen l1) l2.
+Proof.
+  induction l1 as [|inp l1 IH]; intros l2 seen H; [split; [exact I|exact H]|].
+  cbn [app contiguous seen_all] in *. destruct H as [H1 H2]. destruct (IH _ _ H2) as [H3 H4].
+  split; [split; assumption|exact H4].
+Qed.
+
+Lemma ssorted_mid_rel : forall (A : Type) (R : A -> A -> Prop) l1 x l2,
+  StronglySorted R (l1 ++ x :: l2) -> forall y, In y l2 -> R x y.
+Proof.
+  intros A R l1. induction l1 as [|a l1 IH]; intros x l2 H y Hy.
+  - cbn [app] in H. apply StronglySorted_inv in H. destruct H as [_ Hf].
+    rewrite Forall_forall in Hf. apply Hf. exact Hy.
+  - cbn [app] in H. apply StronglySorted_inv in H. destruct H as [H _]. eapply IH; eassumption.
+Qed.
+
+Lemma current_rule_tok : pr_tok_rule current_rule = 0%N. Proof. reflexivity. Qed.
+Lemma current_rule_low : pr_lower_next current_rule = true. Proof. reflexivity. Qed.
+
+(* every task of an invariant-carrying prefix is far above the flush / final priority *)
+Lemma ginv_prio_floor : forall n r0 seen st T x,
+  GInv n r0 seen st T -> In x T -> (det_prio_start - 2 * Z.of_N (ps_count st) < t_prio x)%Z.
+Proof.
+  intros n r0 seen st T x G Hx. destruct seen as [|s0 rest].
+  - rewrite (g_nil _ _ _ _ _ G eq_refl) in Hx. contradiction.
+  - destruct (g_last _ _ _ _ _ G s0 rest eq_refl) as [plast [E1 [E2 _]]].
+    pose proof (g_prios _ _ _ _ _ G _ _ E1). pose proof (g_next_lo _ _ _ _ _ G). specialize (E2 x Hx). lia.
+Qed.
+
+Section SingleFile.
+  Variables (n : nat) (pack : N) (ref rest : list input).
+  Hypothesis Hn : (0 < n)%nat.
+  Hypothesis Hcontig : contiguous [] (ref ++ rest).
+  Hypothesis Hbound : (2 * Z.of_nat (length (ref ++ rest)) + 4 < det_prio_start - 1000000)%Z.
+
+  Let a := push_all current_rule true pack n pstate0 ref.
+  Let c := push_all current_rule true pack n (fst a) rest.
+  Definition sf_rounds : nat := S (ps_rnd (fst c)).
+
+  Lemma sf_tasks : tasks_of (singlefile_script current_rule n pack ref rest)
+                   = (tasks_of (snd a) ++ tasks_of (snd c)) ++ repeat (mk_task true (0%N, 0%N) 0 det_final_prio 0 det_final_seq (ps_rnd (fst c))) n.
+  Proof.
+    unfold singlefile_script. fold a. fold c. rewrite !tasks_of_app. unfold final_block.
+    rewrite tasks_of_repeat_push. cbn [tasks_of]. rewrite app_nil_r.
+    destruct rest; cbn [tasks_of app]; rewrite <- ?app_assoc; reflexivity.
+  Qed.
+
+  Lemma sf_ginv : GInv n 0 (seen_all (seen_all [] ref) rest) (fst c) (tasks_of (snd a) ++ tasks_of (snd c))
+                  /\ ps_count (fst c) = N.of_nat (length (ref ++ rest)).
+  Proof.
+    destruct (contiguous_app _ _ _ Hcontig) as [C1 C2].
+    rewrite app_length, Nat2Z.inj_add in Hbound. pose proof prio_start_val. unfold i32_min.
+    destruct (ginv_push_all n true pack current_rule current_rule_tok current_rule_low ref 0 [] pstate0 []
+                (ginv_init n) C1) as [G1 N1].
+    { cbn [pstate0 ps_count]. unfold i32_min. lia. }
+    fold a in G1, N1. cbn [app] in G1.
+    destruct (ginv_push_all n true pack current_rule current_rule_tok current_rule_low rest 0 _ (fst a) _ G1 C2) as [G2 N2].
+    { rewrite N1. cbn [pstate0 ps_count]. unfold i32_min. lia. }
+    fold c in G2, N2. split; [exact G2|]. rewrite N2, N1, app_length. cbn [pstate0 ps_count]. lia.
+  Qed.
+
+  Theorem singlefile_wf : wf_script n sf_rounds (singlefile_script current_rule n pack ref rest).
+  Proof.
+    destruct sf_ginv as [G NC].
+    set (T := tasks_of (snd a) ++ tasks_of (snd c)) in *.
+    set (rf := ps_rnd (fst c)) in *.
+    set (fin := mk_task true (0%N, 0%N) 0 det_final_prio 0 det_final_seq rf).
+    pose proof final_prio_val as FV. pose proof prio_start_val as PV.
+    assert (Hfloor : forall x, In x T -> (det_final_prio < t_prio x)%Z).
+    { intros x Hx. pose proof (ginv_prio_floor _ _ _ _ _ x G Hx) as F. rewrite NC in F.
+      rewrite nat_N_Z in F. lia. }
+    assert (SEP : StronglySorted sepR (T ++ repeat fin n)).
+    { apply ssorted_app_intro; [apply (g_sep _ _ _ _ _ G)|apply ssorted_repeat; intros H; lia|].
+      intros x y Hx Hy _. apply repeat_spec in Hy. subst y. apply task_cmp_lt_prio. cbn [t_prio fin]. apply Hfloor. exact Hx. }
+    constructor.
+    - rewrite sf_tasks. fold T rf fin. apply ssorted_app_intro; [apply (g_sorted _ _ _ _ _ G)| |].
+      + apply ssorted_repeat. right. split; [reflexivity|right; reflexivity].
+      + intros x y Hx Hy. apply repeat_spec in Hy. subst y. destruct (g_top _ _ _ _ _ G x Hx) as [_ H].
+        unfold rk_le. cbn [t_round t_tok fin]. fold rf in H.
+        destruct H as [L|[L1 L2]]; [left; exact L|right; split; [exact L1|left; exact L2]].
+    - rewrite sf_tasks. fold T rf fin. intros x Hx. unfold sf_rounds. fold rf. apply in_app_or in Hx. destruct Hx as [Hx|Hx].
+      + destruct (g_top _ _ _ _ _ G x Hx) as [_ H]. fold rf in H. destruct H as [L|[L1 L2]]; lia.
+      + apply repeat_spec in Hx. subst x. cbn. lia.
+    - rewrite sf_tasks. fold T rf fin. intros k Hk. unfold sf_rounds in Hk. fold rf in Hk.
+      rewrite cnt_app, cnt_repeat, (g_tokens _ _ _ _ _ G). fold rf. unfold is_tokk. cbn [t_tok t_round fin andb].
+      destruct (Nat.eqb_spec rf k).
+      + subst k. rewrite Nat.ltb_irrefl, andb_false_r. lia.
+      + assert (Nat.ltb k rf = true) as -> by (apply Nat.ltb_lt; lia). cbn [Nat.leb andb]. lia.
+    - rewrite sf_tasks. fold T rf fin. intros x y Hx Hy Hr Hxc Hyt.
+      apply in_app_or in Hx. apply in_app_or in Hy.
+      destruct Hx as [Hx|Hx]; [|apply repeat_spec in Hx; subst x; cbn in Hxc; discriminate].
+      destruct Hy as [Hy|Hy]; [apply (g_before _ _ _ _ _ G); assumption|].
+      apply repeat_spec in Hy. subst y. apply task_cmp_lt_prio. cbn [t_prio fin]. apply Hfloor. exact Hx.
+    - intros A x B y C E Hr. left.
+      assert (ET : tasks_of (singlefile_script current_rule n pack ref rest) = tasks_of A ++ x :: (tasks_of B ++ y :: tasks_of C)).
+      { rewrite E, tasks_of_app. cbn [tasks_of]. rewrite tasks_of_app. reflexivity. }
+      rewrite sf_tasks in ET. fold T rf fin in ET. rewrite ET in SEP.
+      apply (ssorted_mid_rel _ sepR _ _ _ SEP y); [|exact Hr]. apply in_or_app. right. left. reflexivity.
+    - exact Hn.
+  Qed.
+End SingleFile.
+
+(* ---- multi-file mode *)
+Lemma mid_wait_split : forall (A B C L M : list pact) u v w,
+  A ++ u :: B ++ v :: C = L ++ w :: M -> u <> w -> v <> w -> ~ In u M -> ~ In v L -> In w B.
+Proof.
+  intros A. induction A as [|a A IH]; intros B C L M u v w E Hu Hv HuM HvL.
+  - destruct L as [|l L]; cbn [app] in E.
+    + inversion E. contradiction.
+    + inversion E as [[E1 E2]]. subst l. clear E.
+      assert (HvL' : ~ In v L) by (intro H; apply HvL; right; exact H).
+      clear HvL HuM Hu IH. revert L E2 HvL'. induction B as [|b B IHB]; intros L E2 HvL'.
+      * destruct L as [|l L]; cbn [app] in E2; inversion E2; [contradiction|]. subst. exfalso. apply HvL'. left. reflexivity.
+      * destruct L as [|l L]; cbn [app] in E2; inversion E2.
+        -- left. reflexivity.
+        -- right. eapply IHB; [eassumption|]. intro H. apply HvL'. right. exact H.
+  - destruct L as [|l L]; cbn [app] in E.
+    + inversion E. subst. exfalso. apply HuM. apply in_or_app. right. left. reflexivity.
+    + inversion E. eapply IH; try eassumption. intro H. apply HvL. right. exact H.
+Qed.
+
+Lemma push_one_rnd_multi : forall R pack n st inp, ps_rnd (fst (push_one R false pack n st inp)) = ps_rnd st.
+Proof. intros. unfold push_one. cbn [andb]. reflexivity. Qed.
+Lemma push_all_rnd_multi : forall R pack n l st, ps_rnd (fst (push_all R false pack n st l)) = ps_rnd st.
+Proof.
+  intros R pack n l. induction l as [|inp l IH]; intros st; [reflexivity|].
+  cbn [push_all fst]. rewrite IH. apply push_one_rnd_multi.
+Qed.
+
+Lemma ginv_restart : forall n r0 seen st T,
+  GInv n r0 seen st T -> GInv n (S (ps_rnd st)) seen (fst (flush_block n st)) [].
+Proof.
+  intros n r0 seen st T G. destruct G as [Gdom Glo Ghi Gpr Glast Gnil Gsort Gtop Gtok Gseq Gsep Gbef Grnd].
+  constructor; unfold flush_block; cbn [fst ps_prios ps_next ps_count ps_seq ps_rnd]; try assumption; try lia.
+  - intros s0 rest E. destruct (Glast s0 rest E) as [plast [E1 _]]. exists plast. split; [exact E1|]. split; intros x [].
+  - reflexivity.
+  - constructor.
+  - intros x [].
+  - intros k. unfold cnt. cbn [filter length]. destruct (Nat.leb_spec (S (ps_rnd st)) k); cbn [andb]; [|reflexivity].
+    assert (Nat.ltb k (S (ps_rnd st)) = false) as -> by (apply Nat.ltb_ge; lia). reflexivity.
+  - intros x [].
+  - constructor.
+  - intros x y [].
+Qed.
+
+Section MultiFile.
+  Variables (n : nat) (first rest : list input).
+  Hypothesis Hn : (0 < n)%nat.
+  Hypothesis Hcontig : contiguous [] (first ++ rest).
+  Hypothesis Hbound : (2 * Z.of_nat (length (first ++ rest)) + 4 < det_prio_start - 1000000)%Z.
+
+  Let a := push_all current_rule false 1 n pstate0 first.
+  Let b := flush_block n (fst a).
+  Let c := push_all current_rule false 1 n (fst b) rest.
+  Let ftok := mk_task true (0%N, 0%N) 0 det_flush_prio 0 (ps_seq (fst a)) 0.
+  Let fin := mk_task true (0%N, 0%N) 0 det_final_prio 0 det_final_seq 1.
+
+  Lemma mf_rnd_a : ps_rnd (fst a) = 0%nat. Proof. unfold a. rewrite push_all_rnd_multi. reflexivity. Qed.
+  Lemma mf_rnd_c : ps_rnd (fst c) = 1%nat.
+  Proof. unfold c. rewrite push_all_rnd_multi. unfold b, flush_block. cbn [fst ps_rnd]. rewrite mf_rnd_a. reflexivity. Qed.
+
+  Lemma mf_script : multifile_script current_rule n first rest
+    = (snd a ++ [PWaitEmpty] ++ repeat (PPush ftok) n) ++ PWaitEmpty :: (snd c ++ repeat (PPush fin) n ++ [PClose]).
+  Proof.
+    unfold multifile_script. fold a. fold b. fold c. unfold final_block. rewrite mf_rnd_c.
+    unfold b at 2. unfold flush_block. cbn [snd]. rewrite mf_rnd_a. fold ftok. fold fin.
+    rewrite <- !app_assoc. reflexivity.
+  Qed.
+
+  Lemma mf_ginv : GInv n 0 (seen_all [] first) (fst a) (tasks_of (snd a)) /\
+                  GInv n 1 (seen_all (seen_all [] first) rest) (fst c) (tasks_of (snd c)) /\
+                  ps_count (fst a) = N.of_nat (length first) /\ ps_count (fst c) = N.of_nat (length (first ++ rest)).
+  Proof.
+    destruct (contiguous_app _ _ _ Hcontig) as [C1 C2].
+    rewrite app_length, Nat2Z.inj_add in Hbound. pose proof prio_start_val.
+    destruct (ginv_push_all n false 1 current_rule current_rule_tok current_rule_low first 0 [] pstate0 []
+                (ginv_init n) C1) as [G1 N1].
+    { cbn [pstate0 ps_count]. unfold i32_min. lia. }
+    fold a in G1, N1. cbn [app] in G1.
+    pose proof (ginv_restart _ _ _ _ _ G1) as G1'. rewrite mf_rnd_a in G1'. fold b in G1'.
+    destruct (ginv_push_all n false 1 current_rule current_rule_tok current_rule_low rest 1 _ (fst b) [] G1' C2) as [G2 N2].
+    { unfold b, flush_block. cbn [fst ps_count]. rewrite N1. cbn [pstate0 ps_count]. unfold i32_min. lia. }
+    fold c in G2, N2. cbn [app] in G2. split; [exact G1|]. split; [exact G2|].
+    split; [rewrite N1; cbn [pstate0 ps_count]; lia|].
+    rewrite N2. unfold b, flush_block. cbn [fst ps_count]. rewrite N1, app_length. cbn [pstate0 ps_count]. lia.
+  Qed.
+
+  (* with single = false nothing but contigs of the current round is emitted *)
+  Lemma ginv_all_contigs : forall r seen st T x, GInv n r seen st T -> ps_rnd st = r -> In x T ->
+    t_tok x = false /\ t_round x = r.
+  Proof.
+    intros r seen st T x G Hr Hx. destruct (g_top _ _ _ _ _ G x Hx) as [H1 H2]. rewrite Hr in H2.
+    destruct H2 as [L|[L1 L2]]; [lia|]. split; assumption.
+  Qed.
+
+  Theorem multifile_wf : wf_script n 2 (multifile_script current_rule n first rest).
+  Proof.
+    destruct mf_ginv as [G1 [G2 [N1 N2]]].
+    set (T1 := tasks_of (snd a)) in *. set (T2 := tasks_of (snd c)) in *.
+    pose proof final_prio_val as FV. pose proof flush_prio_val as FLV. pose proof prio_start_val as PV.
+    rewrite app_length, Nat2Z.inj_add in Hbound.
+    assert (H1 : forall x, In x T1 -> t_tok x = false /\ t_round x = 0%nat /\ (1000000 < t_prio x)%Z).
+    { intros x Hx. destruct (ginv_all_contigs _ _ _ _ x G1 mf_rnd_a Hx) as [E1 E2].
+      pose proof (ginv_prio_floor _ _ _ _ _ x G1 Hx) as F. rewrite N1, nat_N_Z in F. repeat split; try assumption. lia. }
+    assert (H2 : forall x, In x T2 -> t_tok x = false /\ t_round x = 1%nat /\ (1000000 < t_prio x)%Z).
+    { intros x Hx. destruct (ginv_all_contigs _ _ _ _ x G2 mf_rnd_c Hx) as [E1 E2].
+      pose proof (ginv_prio_floor _ _ _ _ _ x G2 Hx) as F. rewrite N2, nat_N_Z, app_length, Nat2Z.inj_add in F.
+      repeat split; try assumption. lia. }
+    assert (ET : tasks_of (multifile_script current_rule n first rest) = (T1 ++ repeat ftok n) ++ (T2 ++ repeat fin n)).
+    { rewrite mf_script. rewrite !tasks_of_app. cbn [tasks_of]. rewrite !tasks_of_app, !tasks_of_repeat_push.
+      cbn [tasks_of app]. rewrite app_nil_r. reflexivity. }
+    assert (RK0 : forall x, In x (T1 ++ repeat ftok n) -> t_round x = 0%nat /\ (t_tok x = false -> In x T1)).
+    { intros x Hx. apply in_app_or in Hx. destruct Hx as [Hx|Hx].
+      - destruct (H1 x Hx) as [_ [E _]]. split; [exact E|intros _; exact Hx].
+      - apply repeat_spec in Hx. subst x. split; [reflexivity|]. cbn. discriminate. }
+    assert (RK1 : forall x, In x (T2 ++ repeat fin n) -> t_round x = 1%nat /\ (t_tok x = false -> In x T2)).
+    { intros x Hx. apply in_app_or in Hx. destruct Hx as [Hx|Hx].
+      - destruct (H2 x Hx) as [_ [E _]]. split; [exact E|intros _; exact Hx].
+      - apply repeat_spec in Hx. subst x. split; [reflexivity|]. cbn. discriminate. }
+    constructor.
+    - rewrite ET. apply ssorted_app_intro.
+      + apply ssorted_app_intro; [apply (g_sorted _ _ _ _ _ G1)| |].
+        * apply ssorted_repeat. right. split; [reflexivity|right; reflexivity].
+        * intros x y Hx Hy. apply repeat_spec in Hy. subst y. destruct (H1 x Hx) as [E1 [E2 _]].
+          right. cbn [t_round t_tok ftok]. split; [exact E2|left; exact E1].
+      + apply ssorted_app_intro; [apply (g_sorted _ _ _ _ _ G2)| |].
+        * apply ssorted_repeat. right. split; [reflexivity|right; reflexivity].
+        * intros x y Hx Hy. apply repeat_spec in Hy. subst y. destruct (H2 x Hx) as [E1 [E2 _]].
+          right. cbn [t_round t_tok fin]. split; [exact E2|left; exact E1].
+      + intros x y Hx Hy. left. destruct (RK0 x Hx) as [-> _]. destruct (RK1 y Hy) as [-> _]. lia.
+    - rewrite ET. intros x Hx. apply in_app_or in Hx. destruct Hx as [Hx|Hx]; [destruct (RK0 x Hx) as [-> _]|destruct (RK1 x Hx) as [-> _]]; lia.
+    - rewrite ET. intros k Hk. rewrite !cnt_app, !cnt_repeat.
+      rewrite (cnt_zero (is_tokk k) T1), (cnt_zero (is_tokk k) T2).
+      + unfold is_tokk. cbn [t_tok t_round ftok fin andb]. destruct k as [|[|k]]; cbn [Nat.eqb]; lia.
+      + intros x Hx. destruct (H2 x Hx) as [E _]. apply is_tokk_ctg. exact E.
+      + intros x Hx. destruct (H1 x Hx) as [E _]. apply is_tokk_ctg. exact E.
+    - rewrite ET. intros x y Hx Hy Hr Hxc Hyt. apply in_app_or in Hx. apply in_app_or in Hy.
+      assert (Hyp : t_prio y = 1000000%Z /\ (t_round y = 0%nat \/ t_round y = 1%nat)).
+      { destruct Hy as [Hy|Hy]; apply in_app_or in Hy; destruct Hy as [Hy|Hy].
+        - destruct (H1 y Hy) as [E _]. congruence.
+        - apply repeat_spec in Hy. subst y. cbn. split; [exact FLV|left; reflexivity].
+        - destruct (H2 y Hy) as [E _]. congruence.
+        - apply repeat_spec in Hy. subst y. cbn. split; [exact FV|right; reflexivity]. }
+      assert (Hxp : (1000000 < t_prio x)%Z).
+      { destruct Hx as [Hx|Hx]; apply in_app_or in Hx; destruct Hx as [Hx|Hx].
+        - apply (H1 x Hx).
+        - apply repeat_spec in Hx. subst x. cbn in Hxc. discriminate.
+        - apply (H2 x Hx).
+        - apply repeat_spec in Hx. subst x. cbn in Hxc. discriminate. }
+      apply task_cmp_lt_prio. lia.
+    - (* a later round is only entered through sync_and_flush's wait *)
+      intros A x B y C E Hr. right. rewrite mf_script in E.
+      assert (ETA : forall l, tasks_of (l ++ [PWaitEmpty] ++ repeat (PPush ftok) n) = tasks_of l ++ repeat ftok n).
+      { intros l. rewrite !tasks_of_app. cbn [tasks_of]. rewrite tasks_of_repeat_push. reflexivity. }
+      assert (ETC : tasks_of (snd c ++ repeat (PPush fin) n ++ [PClose]) = T2 ++ repeat fin n).
+      { rewrite !tasks_of_app, tasks_of_repeat_push. cbn [tasks_of]. rewrite app_nil_r. reflexivity. }
+      assert (In_push : forall t l, In (PPush t) l -> In t (tasks_of l)).
+      { intros t l. induction l as [|p l IH]; intros H; [contradiction|]. destruct H as [->|H]; [left; reflexivity|].
+        destruct p; cbn [tasks_of]; [right|idtac|idtac]; apply IH; exact H. }
+      assert (Hx_sc : In x ((T1 ++ repeat ftok n) ++ (T2 ++ repeat fin n))).
+      { rewrite <- ET, mf_script, <- E. apply tasks_of_in. }
+      assert (Hy_sc : In y ((T1 ++ repeat ftok n) ++ (T2 ++ repeat fin n))).
+      { rewrite <- ET, mf_script, <- E. rewrite app_comm_cons, app_assoc. apply tasks_of_in. }
+      assert (Rx : t_round x = 0%nat /\ t_round y = 1%nat).
+      { apply in_app_or in Hx_sc. apply in_app_or in Hy_sc.
+        destruct Hx_sc as [Hx|Hx]; [destruct (RK0 x Hx) as [Ex _]|destruct (RK1 x Hx) as [Ex _]];
+          (destruct Hy_sc as [Hy|Hy]; [destruct (RK0 y Hy) as [Ey _]|destruct (RK1 y Hy) as [Ey _]]); lia. }
+      destruct Rx as [Rx Ry].
+      eapply (mid_wait_split A B C _ _ (PPush x) (PPush y) PWaitEmpty E); try discriminate.
+      + intro H. apply In_push in H. rewrite ETC in H. destruct (RK1 x H) as [Ex _]. lia.
+      + intro H. apply In_push in H. fold T1 in H. rewrite ETA in H. fold T1 in H. destruct (RK0 y H) as [Ey _]. lia.
+    - exact Hn.
+  Qed.
+End MultiFile.
